@@ -59,6 +59,8 @@ pub mod reference;
 pub mod stack;
 pub mod thread;
 pub mod types;
+#[cfg(gluon_verif)]
+pub mod verif;
 pub mod vm;
 
 mod array;
